@@ -79,7 +79,11 @@ CONSTANTS
               \*          later (other bin layout, other number of bins, other data and error bars); <<>> = none
   BinnerRule, \* "at_set": set_observed rebuilds the binner (the code) | "lazy_once": built at the first evaluation,
               \*          never rebuilt | "at_init": built by the constructor only
-  ChemSet, ChemLimit,   \* InvalidChemistry  iff  SUM_{p in ChemSet} v[p] > ChemLimit
+  ChemLayers, ChemLimit,  \* the atmosphere has layers 1..Len(ChemLayers); the gases of layer l are the parameters ChemLayers[l];
+              \*          InvalidChemistry iff SUM_{p in ChemLayers[l]} v[p] > ChemLimit in SOME layer l
+  ChemRule,   \* "any": the model rejects the atmosphere as soon as one layer is above the limit (the code, and the
+              \*          statement) | "all": only when every layer is (expected-counterexample variant: an atmosphere
+              \*          above unity in part of its layers is scored with a finite likelihood)
   TLow, THigh,          \* InvalidTemperature iff v[TLow] >= v[THigh]   (inverted nodes)
   Faults,     \* exception classes a fault-injecting contribution may raise on any call
   NaNFaults,  \* subset of NaNKinds: the model returns NaN in all / some bins without raising, on any call
@@ -139,9 +143,12 @@ Chi2Mech(v, vd, skip, o, bo) == RSumSeq([b \in 1..Len(ObsRec(o).data) |->
 Chi2Skip(v, vd, skip, o) == Chi2Mech(v, vd, skip, o, o)
 Chi2(v, vd, o) == Chi2Skip(v, vd, {}, o)
 Conformable(o, bo) == Len(ObsRec(bo).bins) = Len(ObsRec(o).data)
-Outcome(v) == IF SumOver(v, ChemSet) > ChemLimit THEN "InvalidChemistry"
-              ELSE IF v[TLow] >= v[THigh] THEN "InvalidTemperature"
-              ELSE "ok"
+LayerTotals(v) == [l \in 1..Len(ChemLayers) |-> SumOver(v, ChemLayers[l])]
+OutcomeBy(v, rule) == IF LayersAbove(LayerTotals(v), ChemLimit, rule) THEN "InvalidChemistry"
+                      ELSE IF v[TLow] >= v[THigh] THEN "InvalidTemperature"
+                      ELSE "ok"
+Outcome(v) == OutcomeBy(v, ChemRule)             \* what the forward model does
+OutcomeStated(v) == OutcomeBy(v, "any")          \* what the statement calls an invalid atmosphere
 
 \* --------------------------------------------------------------- mechanism
 \* update_model: walk the zipped lists, write parameter FitSeq[i] with PriorSeq[i]
@@ -221,7 +228,7 @@ ExpV(x)  == [p \in 1..NP |-> IF FitFlag[p]
                               ELSE Val0[p]]
 Called   == res.k # "none"
 PartialCall == res.inj = "NaNSome"                      \* some bins NaN: the statement is silent
-InvalidCall == ~PartialCall /\ (res.inj # "none" \/ Outcome(ExpV(res.x)) # "ok")     \* includes "NaNAll"
+InvalidCall == ~PartialCall /\ (res.inj # "none" \/ OutcomeStated(ExpV(res.x)) # "ok")     \* includes "NaNAll"
 
 ValidEqualsGaussian == (Called /\ ~InvalidCall /\ ~PartialCall) =>
                           /\ res.k = "num"
